@@ -1983,3 +1983,8 @@ LONG_NEARMISS_RULE = (" Tag long-nearmiss / long-nearmiss-ok (c01::long_nearmiss
 PROPS["C01"]["rule"] += LONG_NEARMISS_RULE + (" Quick tier also under float_roundtrip (parse_long_integer / parse_long_decimal / parse_long_exponent): every number family in "
                       "full; the generic families are subsampled there (string-literal family skipped, three-token sequences one shard of eight, 1000 documents, 60 random range-band mantissas).")
 PROPS["C02"]["rule"] += LONG_NEARMISS_RULE
+PROPS["C03"]["rule"] += (" Tag serp / disp 'deep' (c03::deep): depth x indent - nests of every depth 1..=44 (thorough 70) in four shapes (sequences only, maps only, alternating with "
+                         "either outermost) around an innermost container of one or two scalars, every third one with a second scalar element after the nested one in each "
+                         "wrapper, serialised compact and pretty with every indent of INDENTS plus four blanks, eight blanks, two tabs (every depth) and 33 blanks (depths 1-3, "
+                         "around every multiple of 16, the deepest), per-write buffers at every eighth depth, and the corresponding Value through {} / {:#} / to_string / "
+                         "to_string_pretty (op disp); quick tier: one innermost size per (depth, shape).")
